@@ -5,13 +5,6 @@ from contracts.fftabs import ENV as FENV
 SP = 'lib/spectrum.cpp'
 ENV = dict(FENV)
 
-fn('dsplib::fft', 'lib/fft/fft.cpp', sig='(const dsplib::arr_cmplx &, int)', key='fft(arr_cmplx,n)', serves=['C01'], trusted=True,
-   pure=True, requires=[('size', 'And(n >= 1, x.len >= 1)')], ensures=[('length', 'result.len == n')],
-   notes='assumed here; proved in contracts/fftplans.py (pad/truncate wrapper)')
-fn('dsplib::fft', 'lib/fft/fft.cpp', sig='(const dsplib::arr_real &, int)', key='fft(arr_real,n)', serves=['C01'], trusted=True,
-   pure=True, requires=[('size', 'And(n >= 1, x.len >= 1)')], ensures=[('length', 'result.len == n')],
-   notes='assumed here; proved in contracts/fftplans.py (pad/truncate wrapper)')
-
 for T, key in (('double', 'real'), ('dsplib::cmplx_t', 'cmplx')):
     fn('dsplib::(anon)::_calcspec', SP, sig='(const base_array<%s> &' % T, key='_calcspec<%s>' % key, serves=['C13', 'C05'],
        pure=True, extra_env=ENV, may_throw=True,
